@@ -422,3 +422,66 @@ v("C12", "countValues-no-recursion", "fire", F,
 v("C12", "silent-eq-temp", "silent", F,
   "        for c, (mask, ps, po) in self | other:\n            if mask == \"A\":",
   "        both = self | other\n        for c, (mask, ps, po) in both:\n            if mask == \"A\":")
+
+# ---------------------------------------------------------------- C08
+v("C08", "splitGeneric-no-copy", "fire", F,
+  "        fiber = copy.deepcopy(self)\n\n        if depth == 0:\n            return fiber._splitFiber(splitter)",
+  "        fiber = self\n\n        if depth == 0:\n            return fiber._splitFiber(splitter)", "C08.R2")
+v("C08", "splitGeneric-descends-self", "fire", F,
+  "        fiber.updatePayloadsBelow(Fiber._splitFiber, splitter, depth=depth-1)",
+  "        self.updatePayloadsBelow(Fiber._splitFiber, splitter, depth=depth-1)", "C08.R2")
+v("C08", "updatePayloads-ordinal-index", "fire", F,
+  "            for i, (c, p) in enumerate(zip(self.coords, self.payloads)):\n                if Payload.isEmpty(p, default=default):\n                    continue\n                self.payloads[i] = Payload.maybe_box(func(i, c, p))",
+  "            for i, (c, p) in enumerate(self.iterOccupancy(tick=False)):\n                self.payloads[i] = Payload.maybe_box(func(i, c, p))", "C08.R3")
+v("C08", "splitEqual-ignores-rankid", "fire", F,
+  "        if rankid is not None:\n            depth = self._rankid2depth(rankid)\n\n        splitter = lambda f: _SplitterEqual(",
+  "        splitter = lambda f: _SplitterEqual(", "C08.R1")
+v("C08", "truediv-floor", "fire", F,
+  "        return self.splitUniform((shape+partitions-1)//partitions)",
+  "        return self.splitUniform(shape//partitions)", "C08.R1")
+v("C08", "tensor-splitEqual-wrong-method", "fire", T,
+  "        return self._splitGeneric(Fiber.splitEqual,", "        return self._splitGeneric(Fiber.splitUnEqual,", "C08.R1")
+v("C08", "uniform-payload-copied", "fire", F,
+  "                        inds.append(i)\n                        lower_coords[i].append(c)\n                        lower_payloads[i].append(p)\n",
+  "                        inds.append(i)\n                        lower_coords[i].append(c)\n                        lower_payloads[i].append(copy.deepcopy(p) * 1)\n", "C08.R4", count=2)
+v("C08", "relative-adds", "fire", F,
+  "                    coords = [c - part for c in coords]", "                    coords = [c + part for c in coords]", "C08.R4")
+v("C08", "splitFiber-default-zero", "fire", F,
+  "                          active_range=active_range,\n                          default=self.getDefault(),",
+  "                          active_range=active_range,\n                          default=0,", "C08.R4")
+v("C08", "splitFiber-upper-coord-first-elem", "fire", F,
+  "            upper.coords.append(part)", "            upper.coords.append(coords[0])", "C08.R4")
+v("C08", "silent-splitGeneric-rename", "silent", F,
+  "        fiber = copy.deepcopy(self)\n\n        if depth == 0:\n            return fiber._splitFiber(splitter)\n\n        fiber.updatePayloadsBelow(Fiber._splitFiber, splitter, depth=depth-1)\n\n        # Only clear the owner after the split so that the fiber has the full\n        # shape information\n        fiber.setOwner(None)\n        return fiber",
+  "        dup = copy.deepcopy(self)\n\n        if depth == 0:\n            return dup._splitFiber(splitter)\n\n        dup.updatePayloadsBelow(Fiber._splitFiber, splitter, depth=depth-1)\n\n        dup.setOwner(None)\n\n        return dup")
+
+# ---------------------------------------------------------------- C09
+v("C09", "updateCoords-return-in-loop", "fire", F,
+  "                p.updateCoords(func, depth=depth - 1, new_shape=new_shape)\n\n            return None",
+  "                p.updateCoords(func, depth=depth - 1, new_shape=new_shape)\n                return None", "C09.R1")
+v("C09", "updatePayloads-break-in-descent", "fire", F,
+  "            for p in self.payloads:\n                p.updatePayloads(func, depth=depth - 1)\n",
+  "            for p in self.payloads:\n                p.updatePayloads(func, depth=depth - 1)\n                break\n", "C09.R1")
+v("C09", "updatePayloads-ordinal-index", "fire", F,
+  "            for i, (c, p) in enumerate(zip(self.coords, self.payloads)):\n                if Payload.isEmpty(p, default=default):\n                    continue\n                self.payloads[i] = Payload.maybe_box(func(i, c, p))",
+  "            for i, (c, p) in enumerate(self.iterOccupancy(tick=False)):\n                self.payloads[i] = Payload.maybe_box(func(i, c, p))", "C09.R2")
+v("C09", "flattenCoords-style-typo", "fire", F,
+  "        elif style == \"relative\":\n            c1_c0 = c1 + c0", "        elif style == \"relativ\":\n            c1_c0 = c1 + c0", "C09.R3")
+v("C09", "merge-shape-drops-pair", "fire", F,
+  "            elif style == \"pair\":\n                shape = (up_shape, low_shape)\n", "", "C09.R3")
+v("C09", "tensor-shape-drops-linear", "fire", T,
+  "                elif coord_style == \"linear\":\n                    if i == depth:\n                        new_shape.append(shape)\n                    else:\n                        new_shape[-1] *= shape\n", "", "C09.R3")
+v("C09", "swizzle-filtered-dfs", "fire", T,
+  "            for c, p in zip(head.coords, head.payloads):\n                frontier.append((p, head, c, depth + 1))",
+  "            for c, p in head:\n                frontier.append((p, head, c, depth + 1))", "C09.R4")
+v("C09", "swizzle-guide-identity", "fire", T,
+  "            guide.append(old_rank_ids.index(rank_id))", "            guide.append(rank_ids.index(rank_id))", "C09.R4")
+v("C09", "swizzle-descending", "fire", T,
+  "        coords.sort(reverse=True)", "        coords.sort()", "C09.R4")
+v("C09", "swapRanks-no-reverse", "fire", F,
+  "        sorted_cp = sorted([(c[::-1], p) for c, p in flattened])", "        sorted_cp = sorted([(c, p) for c, p in flattened])", "C09.R4")
+v("C09", "swapRanks-tuple-style", "fire", F,
+  "        flattened = self.flattenRanks(style=\"pair\")", "        flattened = self.flattenRanks(style=\"tuple\")", "C09.R4")
+v("C09", "silent-updateCoords-while", "silent", F,
+  "        for i in range(len(self.coords)):\n            new_coord = func(i, self.coords[i], self.payloads[i])",
+  "        for i in range(0, len(self.coords)):\n            new_coord = func(i, self.coords[i], self.payloads[i])")
